@@ -2,6 +2,7 @@
    chunk graph (so the relation checker chk_block is no longer a premise of the end-to-end theorem). *)
 From Coq Require Import List String Ascii ZArith NArith Lia Bool.
 From Pory Require Import Lexer Ast Emitter Sem2 Tr.
+From Pory Require Check.
 Import ListNotations.
 Open Scope list_scope.
 
@@ -536,3 +537,1050 @@ Proof.
     inversion TM as [|? c ? cs' T1 T2]; subst. cbn in I. destruct I as [<-|I]; [exact T1|]. eapply IH; eassumption.
 Qed.
 End LOCAL2.
+
+(* ---------- while / do-while ---------- *)
+Lemma nodup_ranges2 lo1 hi1 lo2 hi2 a b :
+  ids_in lo1 hi1 a -> ids_in lo2 hi2 b -> (hi1 <= lo2 \/ hi2 <= lo1)%Z -> NoDup (ids a) -> NoDup (ids b) -> NoDup (ids (a ++ b)).
+Proof.
+  intros A B' D Na Nb. unfold ids. rewrite map_app. apply nodup_app_intro; auto.
+  intros x I J. pose proof (ids_in_In _ _ _ _ A I). pose proof (ids_in_In _ _ _ _ B' J). lia.
+Qed.
+
+Lemma loop_tail_ok c0 body ret en c1 cs :
+  (c0 + 2 <= c1)%Z -> ids_in (c0 + 2) c1 cs -> NoDup (ids cs) -> Forall prebranched cs ->
+  news_ok c0 c1 (cs ++ [mk (c0 + 2) (c0 + 1) body None; mk (c0 + 1) ret [] (Some (BrJump en))]).
+Proof.
+  intros Hc I N P. split; [lia|]. split; [|split].
+  - apply ids_in_app. split; [eapply ids_in_weaken; [| |exact I]; lia|]. repeat constructor; cbn; lia.
+  - apply (nodup_ranges2 (c0 + 2) c1 c0 (c0 + 2)); [exact I|repeat constructor; cbn; lia|right; lia|exact N|].
+    cbn. constructor; [cbn; intros [Q|[]]; lia|]. constructor; [intros []|constructor].
+  - apply Forall_app. split; [apply prebranched_fresh; exact P|].
+    constructor; [right; split; reflexivity|]. constructor; [left; cbn; repeat split; eexists; reflexivity|constructor].
+Qed.
+
+Lemma create_while_news tg c body cur pre rest' cn news br ret c' :
+  cstmts cur = pre ++ SWhile tg c body :: rest' ->
+  create_while c body cur (List.length pre) cn = (news, br, ret, c') -> (0 <= cn)%Z ->
+  news_ok cn c' news /\ Permutation (tags_rem news) (tags body ++ tags rest').
+Proof.
+  intros E H Hc. unfold create_while in H.
+  destruct (split_for_branch cur (List.length pre) cn) as [[post ret0] c0] eqn:ES.
+  destruct (sfb_news _ _ _ _ _ _ _ _ E ES) as [P1 P2].
+  assert (C0 : (cn <= c0)%Z) by (destruct P1; assumption).
+  destruct c as [e|].
+  - destruct (split_bexp e (c0 + 2) (c0 + 2) ret0 (-1)) as [[[cs x] entry] c1] eqn:EX.
+    destruct (split_bexp_ids _ _ _ _ _ _ _ _ _ EX ltac:(lia)) as (X1 & X2 & X3 & X4 & _). inversion H; subst. split.
+    + eapply news_ok_app; [exact P1|]. apply loop_tail_ok; try assumption; lia.
+    + rewrite !tags_rem_app, P2, (tags_rem_prebranched cs X4). unfold tags_rem. cbn. rewrite !app_nil_r. apply Permutation_app_comm.
+  - inversion H; subst. split.
+    + eapply news_ok_app; [exact P1|]. apply (loop_tail_ok c0 body ret (c0 + 2) (c0 + 2) []); try constructor; lia.
+    + rewrite !tags_rem_app, P2. unfold tags_rem. cbn. rewrite !app_nil_r. apply Permutation_app_comm.
+Qed.
+
+Lemma create_dowhile_news tg body e cur pre rest' cn news br ret c' :
+  cstmts cur = pre ++ SDoWhile tg body e :: rest' ->
+  create_dowhile body e cur (List.length pre) cn = (news, br, ret, c') -> (0 <= cn)%Z ->
+  news_ok cn c' news /\ Permutation (tags_rem news) (tags body ++ tags rest').
+Proof.
+  intros E H Hc. unfold create_dowhile in H.
+  destruct (split_for_branch cur (List.length pre) cn) as [[post ret0] c0] eqn:ES.
+  destruct (sfb_news _ _ _ _ _ _ _ _ E ES) as [P1 P2].
+  assert (C0 : (cn <= c0)%Z) by (destruct P1; assumption).
+  destruct (split_bexp e (c0 + 2) (c0 + 2) ret0 (-1)) as [[[cs x] entry] c1] eqn:EX.
+  destruct (split_bexp_ids _ _ _ _ _ _ _ _ _ EX ltac:(lia)) as (X1 & X2 & X3 & X4 & _). inversion H; subst. split.
+  - eapply news_ok_app; [exact P1|]. apply loop_tail_ok; try assumption; lia.
+  - rewrite !tags_rem_app, P2, (tags_rem_prebranched cs X4). unfold tags_rem. cbn. rewrite !app_nil_r. apply Permutation_app_comm.
+Qed.
+
+Section LOCAL3.
+Variable G : list chunk.
+Variables B O : tagmap.
+Notation stays := (stays G).
+Notation obl := (obl G B O).
+
+Lemma create_while_tr tg c body cur pre rest' cn news br ret c' :
+  cstmts cur = pre ++ SWhile tg c body :: rest' ->
+  create_while c body cur (List.length pre) cn = (news, br, ret, c') -> (0 <= cn)%Z ->
+  Forall obl news ->
+  tm_get B tg = Some ret -> tm_get O tg = Some (match br with BrJump d => d | _ => 0%Z end) ->
+  tr_ctrl G B O (SWhile tg c body) br ret /\ tr_rest G B O rest' ret (cret cur).
+Proof.
+  intros E H Hc F TB TO. unfold create_while in H.
+  destruct (split_for_branch cur (List.length pre) cn) as [[post ret0] c0] eqn:ES.
+  destruct (sfb_news _ _ _ _ _ _ _ _ E ES) as [P1 _].
+  assert (C0 : (cn <= c0)%Z) by (destruct P1; assumption).
+  destruct c as [e|].
+  - destruct (split_bexp e (c0 + 2) (c0 + 2) ret0 (-1)) as [[[cs x] entry] c1] eqn:EX.
+    destruct (split_bexp_ids _ _ _ _ _ _ _ _ _ EX ltac:(lia)) as (_ & _ & _ & X4 & X5). cbn in X5. subst entry.
+    inversion H; subst. clear H. cbn in TO.
+    apply Forall_app in F. destruct F as [Fp F]. apply Forall_app in F. destruct F as [Fc F].
+    inversion F as [|? ? Fb F']; subst. inversion F' as [|? ? Fh _]; subst.
+    split; [|eapply sfb_tr; eassumption].
+    apply tcl_while. eapply tr_while_intro with (ch := mk (c0 + 1) ret [] (Some (BrJump x))) (en := x) (bb := (c0 + 2)%Z);
+      [exact Fh|reflexivity|reflexivity| |exact Fb|exact TB|exact TO].
+    eapply split_bexp_tr; [exact EX|]. apply (obls_stay G B O); assumption.
+  - inversion H; subst. clear H. cbn in TO.
+    apply Forall_app in F. destruct F as [Fp F]. inversion F as [|? ? Fb F']; subst. inversion F' as [|? ? Fh _]; subst.
+    split; [|eapply sfb_tr; eassumption].
+    apply tcl_while. eapply tr_while_intro with (ch := mk (c0 + 1) ret [] (Some (BrJump (c0 + 2)))) (en := (c0 + 2)%Z) (bb := (c0 + 2)%Z);
+      [exact Fh|reflexivity|reflexivity|reflexivity|exact Fb|exact TB|exact TO].
+Qed.
+
+Lemma create_dowhile_tr tg body e cur pre rest' cn news br ret c' :
+  cstmts cur = pre ++ SDoWhile tg body e :: rest' ->
+  create_dowhile body e cur (List.length pre) cn = (news, br, ret, c') -> (0 <= cn)%Z ->
+  Forall obl news ->
+  tm_get B tg = Some ret -> tm_get O tg = Some (match br with BrJump d => d | _ => 0%Z end) ->
+  tr_ctrl G B O (SDoWhile tg body e) br ret /\ tr_rest G B O rest' ret (cret cur).
+Proof.
+  intros E H Hc F TB TO. unfold create_dowhile in H.
+  destruct (split_for_branch cur (List.length pre) cn) as [[post ret0] c0] eqn:ES.
+  destruct (sfb_news _ _ _ _ _ _ _ _ E ES) as [P1 _].
+  assert (C0 : (cn <= c0)%Z) by (destruct P1; assumption).
+  destruct (split_bexp e (c0 + 2) (c0 + 2) ret0 (-1)) as [[[cs x] entry] c1] eqn:EX.
+  destruct (split_bexp_ids _ _ _ _ _ _ _ _ _ EX ltac:(lia)) as (_ & _ & _ & X4 & X5). cbn in X5. subst entry.
+  inversion H; subst. clear H. cbn in TO.
+  apply Forall_app in F. destruct F as [Fp F]. apply Forall_app in F. destruct F as [Fc F].
+  inversion F as [|? ? Fb F']; subst. inversion F' as [|? ? Fh _]; subst.
+  split; [|eapply sfb_tr; eassumption].
+  eapply tcl_dowhile. eapply tr_dowhile_intro with (ch := mk (c0 + 1) ret [] (Some (BrJump x))) (en := x);
+    [exact Fh|reflexivity|reflexivity| |exact Fb|exact TB|exact TO].
+  eapply split_bexp_tr; [exact EX|]. apply (obls_stay G B O); assumption.
+Qed.
+End LOCAL3.
+
+(* ---------- switch: the case loop, restated on the suffix still to be processed ---------- *)
+Definition case_entry (id : Z) (c : scase) : list (text * Z * Z) := if sc_def c then [] else [(sc_val c, sc_line c, id)].
+
+Fixpoint sw_suf (fuel : nat) (suf : list scase) (ret : Z) (st : swst) : swst * bool :=
+  match fuel with
+  | O => (st, false)
+  | S f =>
+      match suf with
+      | [] => (st, false)
+      | c :: r =>
+          match sc_body c with
+          | _ :: _ =>
+              let id := (sw_counter st + 1)%Z in
+              sw_suf f r ret {| sw_new := sw_new st ++ [mk id ret (sc_body c) None];
+                                sw_cases := sw_cases st ++ case_entry id c;
+                                sw_def := if sc_def c then Some id else sw_def st;
+                                sw_counter := id |}
+          | [] =>
+              match find_bodied r 0 with
+              | Some (k, cj) =>
+                  let id := (sw_counter st + 1)%Z in
+                  let shared := c :: firstn k r in
+                  sw_suf f (skipn (S k) r) ret
+                         {| sw_new := sw_new st ++ [mk id ret (sc_body cj) None];
+                            sw_cases := sw_cases st ++ flat_map (case_entry id) shared ++ case_entry id cj;
+                            sw_def := if sc_def cj || existsb sc_def shared then Some id else sw_def st;
+                            sw_counter := id |}
+              | None =>
+                  match sw_cases st, sw_def st with
+                  | [], None => (st, true)
+                  | _, None => (st, false)
+                  | _, Some _ =>
+                      let id := (sw_counter st + 1)%Z in
+                      ({| sw_new := sw_new st ++ [mk id ret [] None];
+                          sw_cases := sw_cases st ++ flat_map (case_entry id) suf;
+                          sw_def := sw_def st;
+                          sw_counter := id |}, false)
+                  end
+              end
+          end
+      end
+  end.
+
+Lemma find_bodied_shift : forall cs a, find_bodied cs a = match find_bodied cs 0 with Some (k, c) => Some ((k + a)%nat, c) | None => None end.
+Proof.
+  induction cs as [|c r IH]; intros a; cbn; [reflexivity|]. destruct (sc_body c).
+  - rewrite (IH (S a)), (IH 1%nat). destruct (find_bodied r 0) as [[k x]|]; [|reflexivity]. f_equal. f_equal. lia.
+  - reflexivity.
+Qed.
+
+Lemma skipn_nth {A} : forall (l : list A) i x, nth_error l i = Some x -> skipn i l = x :: skipn (S i) l.
+Proof. induction l as [|a l IH]; intros [|i] x H; cbn in *; try discriminate; [inversion H; reflexivity|]. apply IH. exact H. Qed.
+Lemma skipn_none {A} : forall (l : list A) i, nth_error l i = None -> skipn i l = [].
+Proof. induction l as [|a l IH]; intros [|i] H; cbn in *; try discriminate; auto. Qed.
+Lemma skipn_skipn' {A} : forall a b (l : list A), skipn a (skipn b l) = skipn (a + b) l.
+Proof. intros a b; revert a. induction b as [|b IH]; intros a l; [now rewrite Nat.add_0_r|]. destruct l; [now rewrite !skipn_nil|]. cbn [skipn]. rewrite IH. replace (a + S b)%nat with (S (a + b)) by lia. reflexivity. Qed.
+
+Lemma sw_loop_suf : forall f all i ret st, sw_loop f all i ret st = sw_suf f (skipn i all) ret st.
+Proof.
+  induction f as [|f IH]; intros all i ret st; [reflexivity|]. cbn [sw_loop sw_suf].
+  destruct (nth_error all i) as [c|] eqn:N.
+  - rewrite (skipn_nth _ _ _ N). destruct (sc_body c) as [|s0 b0] eqn:Bc.
+    + rewrite (find_bodied_shift (skipn (S i) all) (S i)).
+      destruct (find_bodied (skipn (S i) all) 0) as [[k cj]|] eqn:FB.
+      * rewrite IH. replace (k + S i - i)%nat with (S k) by lia. cbn [firstn].
+        rewrite skipn_skipn'. replace (S k + S i)%nat with (S (k + S i)) by lia.
+        unfold case_entry. cbn [flat_map]. reflexivity.
+      * unfold case_entry. reflexivity.
+    + rewrite IH. unfold case_entry. destruct (sc_def c); [rewrite app_nil_r|]; reflexivity.
+  - rewrite (skipn_none _ _ N). reflexivity.
+Qed.
+
+(* ---------- facts about the switch selection spec ---------- *)
+Definition emptyb (c : scase) : Prop := sc_body c = [].
+Definition matches (m : text -> bool) (x : scase) : bool := negb (sc_def x) && m (sc_val x).
+
+Lemma find_bodied_none : forall r a, find_bodied r a = None -> Forall emptyb r.
+Proof. induction r as [|c r IH]; intros a H; [constructor|]. cbn in H. destruct (sc_body c) eqn:E; [|discriminate]. constructor; [exact E|eapply IH; exact H]. Qed.
+
+Lemma find_bodied_some : forall r k cj, find_bodied r 0 = Some (k, cj) ->
+  exists E r', r = E ++ cj :: r' /\ Forall emptyb E /\ sc_body cj <> [] /\ List.length E = k.
+Proof.
+  induction r as [|c r IH]; intros k cj H; cbn in H; [discriminate|]. destruct (sc_body c) eqn:E.
+  - rewrite find_bodied_shift in H. destruct (find_bodied r 0) as [[k' x]|] eqn:F; [|discriminate]. inversion H; subst.
+    destruct (IH _ _ eq_refl) as (E' & r' & -> & A & B' & C). exists (c :: E'), r'. repeat split; auto. cbn. lia.
+  - inversion H; subst. exists [], r. repeat split; auto. congruence.
+Qed.
+
+Lemma next_body_group E cj r' : Forall emptyb E -> sc_body cj <> [] -> next_body (E ++ cj :: r') = sc_body cj.
+Proof.
+  induction 1 as [|x E H _ IH]; intros N; cbn.
+  - destruct (sc_body cj); [congruence|reflexivity].
+  - rewrite H. apply IH. exact N.
+Qed.
+Lemma next_body_empties T : Forall emptyb T -> next_body T = [].
+Proof. induction 1 as [|x T H _ IH]; [reflexivity|]. cbn. rewrite H. exact IH. Qed.
+
+(* a list all of whose non-empty suffixes have the same next body *)
+Definition uniform (L : list scase) (b : list stmt) : Prop := forall L1 x L2, L = L1 ++ x :: L2 -> next_body (x :: L2) = b.
+Lemma uniform_cons x L b : uniform (x :: L) b -> next_body (x :: L) = b /\ uniform L b.
+Proof. intros U. split; [apply (U [] x L); reflexivity|]. intros L1 y L2 E. apply (U (x :: L1) y L2). rewrite E. reflexivity. Qed.
+Lemma uniform_group E cj : Forall emptyb E -> sc_body cj <> [] -> uniform (E ++ [cj]) (sc_body cj).
+Proof.
+  intros HE N L1 x L2 Q. revert L1 Q. induction HE as [|e E He HE' IH]; intros L1 Q.
+  - destruct L1 as [|y L1]; cbn in Q.
+    + inversion Q; subst. cbn. destruct (sc_body x); [congruence|reflexivity].
+    + inversion Q as [[Q1 Q2]]. destruct L1; discriminate.
+  - destruct L1 as [|y L1]; cbn in Q.
+    + inversion Q; subst. change (x :: E ++ [cj]) with ((x :: E) ++ cj :: []). apply next_body_group; [constructor; assumption|exact N].
+    + inversion Q as [[Q1 Q2]]. apply (IH L1). exact Q2.
+Qed.
+Lemma uniform_empties T : Forall emptyb T -> uniform T [].
+Proof.
+  intros HT L1 x L2 Q. apply next_body_empties. subst T. apply Forall_app in HT. destruct HT as [_ H]. exact H.
+Qed.
+
+Lemma select_match_uniform L b m : uniform L b -> select_match L m = if existsb (matches m) L then Some b else None.
+Proof.
+  induction L as [|x L IH]; intros U; [reflexivity|]. destruct (uniform_cons _ _ _ U) as [U1 U2]. cbn [select_match existsb]. unfold matches at 1.
+  destruct (negb (sc_def x) && m (sc_val x)); [now rewrite U1|]. cbn [orb]. apply IH. exact U2.
+Qed.
+Lemma select_default_uniform L b : uniform L b -> select_default L = if existsb sc_def L then Some b else None.
+Proof.
+  induction L as [|x L IH]; intros U; [reflexivity|]. destruct (uniform_cons _ _ _ U) as [U1 U2]. cbn [select_default existsb].
+  destruct (sc_def x); [now rewrite U1|]. cbn [orb]. apply IH. exact U2.
+Qed.
+Lemma first_case_entries id L m : first_case (flat_map (case_entry id) L) m = if existsb (matches m) L then Some id else None.
+Proof.
+  induction L as [|x L IH]; [reflexivity|]. cbn [flat_map existsb]. unfold case_entry at 1, matches at 1. destruct (sc_def x); cbn [negb andb orb app].
+  - exact IH.
+  - cbn [first_case]. destruct (m (sc_val x)); [reflexivity|exact IH].
+Qed.
+Lemma first_case_app a b m : first_case (a ++ b) m = match first_case a m with Some d => Some d | None => first_case b m end.
+Proof. induction a as [|[[v l] d] a IH]; [reflexivity|]. cbn. destruct (m v); [reflexivity|exact IH]. Qed.
+
+(* prefixes that end with a case that has a body *)
+Fixpoint closedb (P : list scase) : bool :=
+  match P with [] => true | c :: r => match r with [] => match sc_body c with [] => false | _ => true end | _ => closedb r end end.
+Lemma closedb_snoc P c : sc_body c <> [] -> closedb (P ++ [c]) = true.
+Proof. intros N. induction P as [|x P IH]; cbn; [destruct (sc_body c); congruence|]. destruct (P ++ [c]) eqn:E; [destruct P; discriminate|]. exact IH. Qed.
+Lemma closedb_app P Q : Q <> [] -> closedb Q = true -> closedb (P ++ Q) = true.
+Proof. intros N C. induction P as [|x P IH]; [exact C|]. cbn. destruct (P ++ Q) eqn:E; [destruct P; [cbn in E; congruence|discriminate]|]. exact IH. Qed.
+Lemma next_body_closed P S : P <> [] -> closedb P = true -> next_body (P ++ S) = next_body P.
+Proof.
+  induction P as [|x P IH]; intros N C; [congruence|]. cbn. destruct (sc_body x) eqn:B; [|reflexivity].
+  destruct P as [|y P]; [cbn in C; rewrite B in C; discriminate|]. apply IH; [discriminate|exact C].
+Qed.
+Lemma select_match_closed P S m : closedb P = true ->
+  select_match (P ++ S) m = match select_match P m with Some b => Some b | None => select_match S m end.
+Proof.
+  induction P as [|x P IH]; intros C; [reflexivity|]. cbn [app select_match].
+  destruct (negb (sc_def x) && m (sc_val x)).
+  - f_equal. apply (next_body_closed (x :: P) S); [discriminate|exact C].
+  - apply IH. destruct P; [reflexivity|exact C].
+Qed.
+Lemma select_default_closed P S : closedb P = true ->
+  select_default (P ++ S) = match select_default P with Some b => Some b | None => select_default S end.
+Proof.
+  induction P as [|x P IH]; intros C; [reflexivity|]. cbn [app select_default].
+  destruct (sc_def x).
+  - f_equal. apply (next_body_closed (x :: P) S); [discriminate|exact C].
+  - apply IH. destruct P; [reflexivity|exact C].
+Qed.
+Definition ndef (L : list scase) : nat := List.length (filter sc_def L).
+Lemma ndef_app a b : ndef (a ++ b) = (ndef a + ndef b)%nat.
+Proof. unfold ndef. now rewrite filter_app, app_length. Qed.
+Lemma ndef_zero L : ndef L = 0%nat -> existsb sc_def L = false.
+Proof. induction L as [|x L IH]; [reflexivity|]. unfold ndef in *. cbn. destruct (sc_def x); cbn; [discriminate|exact IH]. Qed.
+Lemma ndef_pos L : existsb sc_def L = true -> (1 <= ndef L)%nat.
+Proof. induction L as [|x L IH]; [discriminate|]. unfold ndef in *. cbn. destruct (sc_def x); cbn; [lia|exact IH]. Qed.
+Lemma select_default_none L : ndef L = 0%nat -> select_default L = None.
+Proof. induction L as [|x L IH]; [reflexivity|]. unfold ndef in *. cbn. destruct (sc_def x); cbn; [discriminate|exact IH]. Qed.
+
+(* ---------- the case loop implements the selection spec ---------- *)
+Section SW.
+Variable ret : Z.
+Definition hasb (st : swst) (b : list stmt) (d : Z) : Prop := In (mk d ret b None) (sw_new st).
+Definition tok (st : swst) (b : list stmt) (fc : option Z) (def : option Z) : Prop :=
+  match fc, def with
+  | Some d, _ => hasb st b d
+  | None, Some dd => hasb st b dd
+  | None, None => b = []
+  end.
+
+Record Pre (P : list scase) (st : swst) : Prop := {
+  pre_match : forall m, match select_match P m with
+                        | Some b => exists d, first_case (sw_cases st) m = Some d /\ hasb st b d
+                        | None => first_case (sw_cases st) m = None
+                        end;
+  pre_def : match select_default P with
+            | Some b => exists dd, sw_def st = Some dd /\ hasb st b dd
+            | None => sw_def st = None
+            end;
+  pre_closed : closedb P = true;
+  pre_empty : sw_cases st = [] -> sw_def st = None -> P = [] }.
+
+Definition group_st (st : swst) (id : Z) (Grp : list scase) (b : list stmt) : swst :=
+  {| sw_new := sw_new st ++ [mk id ret b None];
+     sw_cases := sw_cases st ++ flat_map (case_entry id) Grp;
+     sw_def := if existsb sc_def Grp then Some id else sw_def st;
+     sw_counter := id |}.
+
+Lemma select_default_some_ndef P b : select_default P = Some b -> (1 <= ndef P)%nat.
+Proof. intros H. destruct (ndef P) eqn:E; [rewrite (select_default_none P E) in H; discriminate|lia]. Qed.
+
+Lemma group_step P st E' cj id :
+  Pre P st -> Forall emptyb E' -> sc_body cj <> [] -> (ndef (P ++ E' ++ [cj]) <= 1)%nat ->
+  Pre (P ++ E' ++ [cj]) (group_st st id (E' ++ [cj]) (sc_body cj)).
+Proof.
+  intros [PM PD PC PE] HE N ND. pose proof (uniform_group E' cj HE N) as U.
+  assert (MONO : forall b d, hasb st b d -> hasb (group_st st id (E' ++ [cj]) (sc_body cj)) b d).
+  { intros b d H. unfold hasb, group_st. cbn. apply in_or_app. left. exact H. }
+  assert (NEW : hasb (group_st st id (E' ++ [cj]) (sc_body cj)) (sc_body cj) id).
+  { unfold hasb, group_st. cbn. apply in_or_app. right. left. reflexivity. }
+  constructor.
+  - intros m. rewrite (select_match_closed P _ m PC). cbn [group_st sw_cases]. rewrite first_case_app. specialize (PM m).
+    destruct (select_match P m) as [b|].
+    + destruct PM as (d & F & H). rewrite F. exists d. split; [reflexivity|apply MONO; exact H].
+    + rewrite PM. rewrite (select_match_uniform _ _ m U), first_case_entries.
+      destruct (existsb (matches m) (E' ++ [cj])); [exists id; split; [reflexivity|exact NEW]|reflexivity].
+  - rewrite (select_default_closed P _ PC). cbn [group_st sw_def]. rewrite ndef_app in ND.
+    destruct (select_default P) as [b|] eqn:SD.
+    + destruct PD as (dd & F & H). pose proof (select_default_some_ndef P b SD).
+      rewrite (ndef_zero (E' ++ [cj])) by lia. exists dd. split; [exact F|apply MONO; exact H].
+    + rewrite (select_default_uniform _ _ U). destruct (existsb sc_def (E' ++ [cj])); [exists id; split; [reflexivity|exact NEW]|exact PD].
+  - apply closedb_app; [destruct E'; discriminate|apply closedb_snoc; exact N].
+  - cbn [group_st sw_cases sw_def]. intros C D. exfalso. rewrite flat_map_app in C. cbn [flat_map] in C. rewrite existsb_app in D. cbn [existsb] in D.
+    unfold case_entry at 2 in C. destruct (sc_def cj).
+    + rewrite orb_true_r in D. discriminate.
+    + apply app_eq_nil in C. destruct C as [_ C]. apply app_eq_nil in C. destruct C as [_ C]. discriminate.
+Qed.
+
+Lemma sw_suf_spec : forall f S P st st' el,
+  sw_suf f S ret st = (st', el) -> (List.length S < f)%nat -> Pre P st -> (ndef (P ++ S) <= 1)%nat ->
+  (el = true -> forall m, select_case (P ++ S) m = []) /\
+  (el = false -> forall m, tok st' (select_case (P ++ S) m) (first_case (sw_cases st') m) (sw_def st')).
+Proof.
+  induction f as [|f IH]; intros S P st st' el H L PRE ND; [lia|].
+  destruct S as [|c r].
+  - (* nothing left *)
+    cbn in H. inversion H; subst. split; [discriminate|]. intros _ m. rewrite app_nil_r. unfold select_case, tok.
+    destruct PRE as [PM PD _ _]. specialize (PM m). destruct (select_match P m) as [b|].
+    + destruct PM as (d & F & Hh). rewrite F. exact Hh.
+    + rewrite PM. destruct (select_default P) as [b|].
+      * destruct PD as (dd & F & Hh). rewrite F. exact Hh.
+      * rewrite PD. reflexivity.
+  - cbn [sw_suf] in H. cbn [List.length] in L. destruct (sc_body c) as [|s0 b0] eqn:Bc.
+    + destruct (find_bodied r 0) as [[k cj]|] eqn:FB.
+      * (* empty cases sharing the next body *)
+        destruct (find_bodied_some _ _ _ FB) as (E & r' & -> & HE & N & LEN).
+        assert (F1 : firstn k (E ++ cj :: r') = E) by (rewrite <- LEN; apply firstn_app_here).
+        assert (F2 : skipn (S k) (E ++ cj :: r') = r') by (rewrite <- LEN; apply skipn_app_here).
+        rewrite F1, F2 in H.
+        assert (EQ : {| sw_new := sw_new st ++ [mk (sw_counter st + 1) ret (sc_body cj) None];
+                        sw_cases := sw_cases st ++ flat_map (case_entry (sw_counter st + 1)) (c :: E) ++ case_entry (sw_counter st + 1) cj;
+                        sw_def := if sc_def cj || existsb sc_def (c :: E) then Some (sw_counter st + 1)%Z else sw_def st;
+                        sw_counter := (sw_counter st + 1)%Z |} = group_st st (sw_counter st + 1) ((c :: E) ++ [cj]) (sc_body cj)).
+        { unfold group_st. f_equal.
+          - rewrite flat_map_app. cbn [flat_map]. rewrite app_nil_r. reflexivity.
+          - rewrite existsb_app. cbn [existsb]. rewrite orb_false_r, orb_comm. reflexivity. }
+        rewrite EQ in H.
+        assert (AS : P ++ c :: E ++ cj :: r' = (P ++ (c :: E) ++ [cj]) ++ r') by (rewrite <- !app_assoc; reflexivity).
+        rewrite AS. rewrite AS in ND. eapply IH; [exact H| | |exact ND].
+        -- rewrite app_length in L. cbn [List.length] in L. lia.
+        -- apply group_step; [exact PRE|constructor; [exact Bc|exact HE]|exact N|]. rewrite ndef_app in ND. lia.
+      * (* trailing cases without a body *)
+        pose proof (find_bodied_none _ _ FB) as HR. assert (HT : Forall emptyb (c :: r)) by (constructor; assumption).
+        pose proof (uniform_empties _ HT) as U. destruct PRE as [PM PD PC PE].
+        assert (SM : forall m, select_match (P ++ c :: r) m = match select_match P m with Some b => Some b | None => if existsb (matches m) (c :: r) then Some [] else None end).
+        { intros m. rewrite (select_match_closed P _ m PC). rewrite (select_match_uniform _ _ m U). reflexivity. }
+        assert (SDF : select_default (P ++ c :: r) = match select_default P with Some b => Some b | None => if existsb sc_def (c :: r) then Some [] else None end).
+        { rewrite (select_default_closed P _ PC). rewrite (select_default_uniform _ _ U). reflexivity. }
+        destruct (sw_def st) as [dd|] eqn:DS.
+        -- (* a default exists: explicit exit chunk for the trailing values *)
+           assert (H' : ({| sw_new := sw_new st ++ [mk (sw_counter st + 1) ret [] None];
+                           sw_cases := sw_cases st ++ flat_map (case_entry (sw_counter st + 1)) (c :: r);
+                           sw_def := Some dd; sw_counter := (sw_counter st + 1)%Z |}, false) = (st', el)) by (destruct (sw_cases st); exact H).
+           inversion H'; subst. clear H H'. split; [discriminate|]. intros _ m. unfold select_case, tok. rewrite SM, SDF. cbn [sw_cases sw_def].
+           change (case_entry (sw_counter st + 1) c ++ flat_map (case_entry (sw_counter st + 1)) r) with (flat_map (case_entry (sw_counter st + 1)) (c :: r)).
+           rewrite first_case_app, first_case_entries. specialize (PM m). destruct (select_match P m) as [b|].
+           ++ destruct PM as (d & F & Hh). rewrite F. unfold hasb. cbn. apply in_or_app. left. exact Hh.
+           ++ rewrite PM. destruct (existsb (matches m) (c :: r)).
+              ** unfold hasb. cbn. apply in_or_app. right. left. reflexivity.
+              ** destruct (select_default P) as [b|]; [|rewrite PD in DS; discriminate].
+                 destruct PD as (dd' & F & Hh). inversion F; subst dd'. unfold hasb. cbn. apply in_or_app. left. exact Hh.
+        -- destruct (sw_cases st) as [|e0 es] eqn:CS.
+           ++ (* nothing has a body: the switch is elided *)
+              inversion H; subst. split; [|discriminate]. intros _ m. rewrite (PE eq_refl eq_refl). cbn [app].
+              apply (Check.all_empty_select). rewrite forallb_forall. intros x Hx. rewrite Forall_forall in HT. rewrite (HT x Hx). reflexivity.
+           ++ inversion H; subst. split; [discriminate|]. intros _ m. unfold select_case, tok. rewrite SM, SDF, DS. specialize (PM m).
+              destruct (select_match P m) as [b|].
+              ** destruct PM as (d & F & Hh). rewrite CS, F. exact Hh.
+              ** rewrite CS, PM. destruct (select_default P) as [b|]; [destruct PD as (dd' & F & _); discriminate|].
+                 destruct (existsb (matches m) (c :: r)); [reflexivity|]. destruct (existsb sc_def (c :: r)); reflexivity.
+    + (* a case with a body *)
+      assert (EQ : {| sw_new := sw_new st ++ [mk (sw_counter st + 1) ret (s0 :: b0) None];
+                      sw_cases := sw_cases st ++ case_entry (sw_counter st + 1) c;
+                      sw_def := if sc_def c then Some (sw_counter st + 1)%Z else sw_def st;
+                      sw_counter := (sw_counter st + 1)%Z |} = group_st st (sw_counter st + 1) ([] ++ [c]) (sc_body c)).
+      { unfold group_st. rewrite Bc. f_equal.
+        - cbn [app flat_map]. rewrite app_nil_r. reflexivity.
+        - cbn [app existsb]. rewrite orb_false_r. reflexivity. }
+      rewrite EQ in H.
+      assert (AS : P ++ c :: r = (P ++ [] ++ [c]) ++ r) by (rewrite <- !app_assoc; reflexivity).
+      rewrite AS. rewrite AS in ND. eapply IH; [exact H|lia| |exact ND].
+      apply group_step; [exact PRE|constructor|rewrite Bc; discriminate|]. rewrite ndef_app in ND. lia.
+Qed.
+End SW.
+
+Lemma tags_cases_app a b : tags_cases (a ++ b) = tags_cases a ++ tags_cases b.
+Proof. unfold tags_cases. now rewrite map_app, List.concat_app. Qed.
+Lemma tags_cases_empties T : Forall emptyb T -> tags_cases T = [].
+Proof. induction 1 as [|x T H _ IH]; [reflexivity|]. unfold tags_cases in *. cbn. rewrite H, IH. reflexivity. Qed.
+
+Lemma sw_suf_news ret : forall f S st st' el,
+  sw_suf f S ret st = (st', el) -> (List.length S < f)%nat ->
+  exists extra, sw_new st' = sw_new st ++ extra /\ (sw_counter st <= sw_counter st')%Z /\
+    ids_in (sw_counter st) (sw_counter st') extra /\ NoDup (ids extra) /\ Forall plainchunk extra /\
+    tags_rem extra = tags_cases S.
+Proof.
+  induction f as [|f IH]; intros S st st' el H L; [lia|].
+  assert (ONE : forall st1 S1 b, sw_suf f S1 ret st1 = (st', el) -> (List.length S1 < f)%nat ->
+                 sw_new st1 = sw_new st ++ [mk (sw_counter st + 1) ret b None] -> sw_counter st1 = (sw_counter st + 1)%Z ->
+                 exists extra, sw_new st' = sw_new st ++ extra /\ (sw_counter st <= sw_counter st')%Z /\
+                   ids_in (sw_counter st) (sw_counter st') extra /\ NoDup (ids extra) /\ Forall plainchunk extra /\
+                   tags_rem extra = tags b ++ tags_cases S1).
+  { intros st1 S1 b H1 L1 N1 C1. destruct (IH _ _ _ _ H1 L1) as (ex & A1 & A2 & A3 & A4 & A5 & A6). rewrite C1 in *.
+    exists (mk (sw_counter st + 1) ret b None :: ex). split; [rewrite A1, N1, <- app_assoc; reflexivity|]. split; [lia|]. split.
+    { constructor; [cbn; lia|eapply ids_in_weaken; [| |exact A3]; lia]. }
+    split. { cbn. constructor; [|exact A4]. intros I. pose proof (ids_in_In _ _ _ _ A3 I). lia. }
+    split; [constructor; [split; reflexivity|exact A5]|]. unfold tags_rem in *. cbn. rewrite A6. reflexivity. }
+  destruct S as [|c r].
+  - cbn in H. inversion H; subst. exists []. rewrite app_nil_r. repeat split; try constructor; lia.
+  - cbn [sw_suf] in H. cbn [List.length] in L. destruct (sc_body c) as [|s0 b0] eqn:Bc.
+    + destruct (find_bodied r 0) as [[k cj]|] eqn:FB.
+      * destruct (find_bodied_some _ _ _ FB) as (E & r' & -> & HE & N & LEN).
+        assert (F2 : skipn (S k) (E ++ cj :: r') = r') by (rewrite <- LEN; apply skipn_app_here). rewrite F2 in H.
+        destruct (ONE _ _ (sc_body cj) H) as (ex & A); [rewrite app_length in L; cbn in L; lia|reflexivity|reflexivity|].
+        exists ex. destruct A as (A1 & A2 & A3 & A4 & A5 & A6). repeat split; try assumption. rewrite A6.
+        change (c :: E ++ cj :: r') with ((c :: E) ++ cj :: r'). rewrite tags_cases_app, (tags_cases_empties (c :: E)) by (constructor; assumption).
+        reflexivity.
+      * pose proof (find_bodied_none _ _ FB) as HR. assert (HT : Forall emptyb (c :: r)) by (constructor; assumption).
+        rewrite (tags_cases_empties _ HT).
+        destruct (sw_def st) as [dd|].
+        -- assert (H' : ({| sw_new := sw_new st ++ [mk (sw_counter st + 1) ret [] None];
+                           sw_cases := sw_cases st ++ flat_map (case_entry (sw_counter st + 1)) (c :: r);
+                           sw_def := Some dd; sw_counter := (sw_counter st + 1)%Z |}, false) = (st', el)) by (destruct (sw_cases st); exact H).
+           inversion H'; subst. cbn. exists [mk (sw_counter st + 1) ret [] None]. split; [reflexivity|]. split; [lia|].
+           split; [repeat constructor; cbn; lia|]. split; [repeat constructor; cbn; tauto|]. split; [repeat constructor|reflexivity].
+        -- assert (H' : st' = st) by (destruct (sw_cases st); inversion H; reflexivity). subst st'.
+           exists []. rewrite app_nil_r. repeat split; try constructor; lia.
+    + destruct (ONE _ _ (sc_body c) H) as (ex & A); [lia|rewrite Bc; reflexivity|reflexivity|].
+      exists ex. destruct A as (A1 & A2 & A3 & A4 & A5 & A6). repeat split; assumption.
+Qed.
+
+(* ---------- switch: the create function ---------- *)
+Lemma create_switch_news tg op ol cases cur pre rest' cn news br ret c' :
+  cstmts cur = pre ++ SSwitch tg op ol cases :: rest' ->
+  create_switch op ol cases cur (List.length pre) cn = (news, br, ret, c') -> (0 <= cn)%Z ->
+  news_ok cn c' news /\ Permutation (tags_rem news) (tags_cases cases ++ tags rest').
+Proof.
+  intros E H Hc. unfold create_switch in H.
+  destruct (split_for_branch cur (List.length pre) cn) as [[post ret0] c0] eqn:ES.
+  destruct (sfb_news _ _ _ _ _ _ _ _ E ES) as [P1 P2].
+  assert (C0 : (cn <= c0)%Z) by (destruct P1; assumption).
+  cbv zeta in H. rewrite sw_loop_suf in H. change (skipn 0 cases) with cases in H.
+  match type of H with context[sw_suf ?a ?b ?c ?d] => destruct (sw_suf a b c d) as [st el] eqn:SW end.
+  assert (LL : (List.length cases < S (List.length cases))%nat) by lia.
+  destruct (sw_suf_news _ _ _ _ _ _ SW LL) as (ex & A1 & A2 & A3 & A4 & A5 & A6). cbn in A1, A2, A3. inversion H; subst. split.
+  - eapply news_ok_app; [exact P1|]. eapply (news_ok_app c0 (c0 + 1) _ [_] (sw_new st)).
+    + apply news_ok_one; [reflexivity|]. destruct el; [right; split; reflexivity|left; cbn; repeat split; eexists; reflexivity].
+    + split; [lia|]. split; [exact A3|]. split; [exact A4|apply plain_fresh; exact A5].
+  - rewrite tags_rem_app, P2. unfold tags_rem at 1. cbn [map List.concat cstmts mk tags app]. fold (tags_rem (sw_new st)). rewrite A6. apply Permutation_app_comm.
+Qed.
+
+Section LOCAL4.
+Variable G : list chunk.
+Variables B O : tagmap.
+Notation stays := (stays G).
+Notation obl := (obl G B O).
+
+Lemma create_switch_tr tg op ol cases cur pre rest' cn news br ret c' :
+  cstmts cur = pre ++ SSwitch tg op ol cases :: rest' ->
+  create_switch op ol cases cur (List.length pre) cn = (news, br, ret, c') -> (0 <= cn)%Z ->
+  (ndef cases <= 1)%nat ->
+  Forall obl news -> tm_get B tg = Some ret ->
+  tr_ctrl G B O (SSwitch tg op ol cases) br ret /\ tr_rest G B O rest' ret (cret cur).
+Proof.
+  intros E H Hc ND F TB. unfold create_switch in H.
+  destruct (split_for_branch cur (List.length pre) cn) as [[post ret0] c0] eqn:ES.
+  cbv zeta in H. rewrite sw_loop_suf in H. change (skipn 0 cases) with cases in H.
+  match type of H with context[sw_suf ?a ?b ?c ?d] => destruct (sw_suf a b c d) as [st el] eqn:SW end.
+  assert (PRE0 : Pre ret0 [] {| sw_new := []; sw_cases := []; sw_def := None; sw_counter := (c0 + 1)%Z |}).
+  { constructor; cbn; auto. }
+  assert (LL : (List.length cases < S (List.length cases))%nat) by lia.
+  destruct (sw_suf_spec ret0 _ _ [] _ _ _ SW LL PRE0 ND) as [EL NEL]. cbn [app] in EL, NEL.
+  inversion H; subst. clear H.
+  apply Forall_app in F. destruct F as [Fp F]. inversion F as [|? ? Fsw Fn]; subst.
+  split; [|eapply sfb_tr; eassumption].
+  assert (HB : forall b d, hasb ret st b d -> tr_block G B O b d ret).
+  { intros b d Hh. unfold hasb in Hh. rewrite Forall_forall in Fn. apply (Fn _ Hh). }
+  destruct el.
+  - (* elided *)
+    unfold Worklist.obl in Fsw. cbn in Fsw. inversion Fsw as [? ? c ? GC TS]; subst.
+    assert (C : cstmts c = [] /\ cbr c = None /\ cret c = ret /\ cend c = false).
+    { inversion TS; subst.
+      - auto.
+      - exfalso. match goal with Hx : [] = _ ++ _ |- _ => symmetry in Hx; apply app_eq_nil in Hx; destruct Hx; discriminate
+                               | Hx : _ ++ _ = [] |- _ => apply app_eq_nil in Hx; destruct Hx; discriminate end.
+      - exfalso. match goal with Hx : [] = _ ++ _ |- _ => symmetry in Hx; apply app_eq_nil in Hx; destruct Hx; discriminate
+                               | Hx : _ ++ _ = [] |- _ => apply app_eq_nil in Hx; destruct Hx; discriminate end. }
+    destruct C as (C1 & C2 & C3 & C4).
+    eapply tcl_switch; [exact GC|exact C1|exact TB|]. apply swi_elided; auto.
+  - unfold Worklist.obl, Worklist.stays in Fsw. cbn in Fsw.
+    eapply tcl_switch; [exact Fsw|reflexivity|exact TB|].
+    eapply swi_switch; [reflexivity|]. intros m. specialize (NEL eq_refl m). unfold tok in NEL.
+    destruct (first_case (sw_cases st) m) as [d|].
+    + apply sto_case. apply HB. exact NEL.
+    + destruct (sw_def st) as [dd|].
+      * apply sto_def. apply HB. exact NEL.
+      * rewrite NEL. apply sto_none. reflexivity.
+Qed.
+End LOCAL4.
+
+(* ---------- source well-formedness used by the worklist proof ---------- *)
+From Pory Require LabelSim.
+
+(* every 'if' has a first condition (the parser never builds SIf [] _) *)
+Fixpoint ifok1b (s : stmt) : bool :=
+  let okl := fix okl (ss : list stmt) : bool := match ss with [] => true | x :: r => ifok1b x && okl r end in
+  match s with
+  | SIf conds els =>
+      negb (match conds with [] => true | _ => false end) &&
+      (fix go (cs : list (bexp * list stmt)) : bool := match cs with [] => true | (_, b) :: r => okl b && go r end) conds &&
+      match els with Some b => okl b | None => true end
+  | SWhile _ _ b => okl b
+  | SDoWhile _ b _ => okl b
+  | SSwitch _ _ _ cases => (fix go (cs : list scase) : bool := match cs with [] => true | c :: r => okl (sc_body c) && go r end) cases
+  | _ => true
+  end.
+Fixpoint ifokb (ss : list stmt) : bool := match ss with [] => true | x :: r => ifok1b x && ifokb r end.
+Definition ifok_local := fix okl (ss : list stmt) : bool := match ss with [] => true | x :: r => ifok1b x && okl r end.
+Lemma ifok_local_eq ss : ifok_local ss = ifokb ss.
+Proof. induction ss as [|x r IH]; [reflexivity|]. cbn. now rewrite IH. Qed.
+
+Definition subblocks (s : stmt) : list (list stmt) :=
+  match s with
+  | SIf conds els => map snd conds ++ match els with Some b => [b] | None => [] end
+  | SWhile _ _ b => [b]
+  | SDoWhile _ b _ => [b]
+  | SSwitch _ _ _ cases => map (fun c : scase => sc_body c) cases
+  | _ => []
+  end.
+
+Lemma ifok1_sub s : ifok1b s = true -> forall b, In b (subblocks s) -> ifokb b = true.
+Proof.
+  destruct s as [c|nm g tk|conds els|tag c body|tag body c|tag|tag|tag op ol cases]; cbn [subblocks]; try (intros _ b I; contradiction).
+  - change (ifok1b (SIf conds els)) with
+      (negb (match conds with [] => true | _ => false end) &&
+       (fix go (cs : list (bexp * list stmt)) : bool := match cs with [] => true | (_, b) :: r => ifok_local b && go r end) conds &&
+       match els with Some b => ifok_local b | None => true end).
+    intros H b I. apply andb_prop in H. destruct H as [H H2]. apply andb_prop in H. destruct H as [_ H1]. apply in_app_or in I. destruct I as [I|I].
+    + clear H2. induction conds as [|[e b'] r IH]; [destruct I|]. apply andb_prop in H1. destruct H1 as [A B']. destruct I as [<-|I]; [cbn; now rewrite <- ifok_local_eq|auto].
+    + destruct els as [eb|]; [|destruct I]. destruct I as [<-|[]]. now rewrite <- ifok_local_eq.
+  - change (ifok1b (SWhile tag c body)) with (ifok_local body). intros H b [<-|[]]. rewrite <- ifok_local_eq. exact H.
+  - change (ifok1b (SDoWhile tag body c)) with (ifok_local body). intros H b [<-|[]]. rewrite <- ifok_local_eq. exact H.
+  - change (ifok1b (SSwitch tag op ol cases)) with
+      ((fix go (cs : list scase) : bool := match cs with [] => true | c :: r => ifok_local (sc_body c) && go r end) cases).
+    intros H b I. induction cases as [|c r IH]; [destruct I|]. apply andb_prop in H. destruct H as [A B']. destruct I as [<-|I]; [now rewrite <- ifok_local_eq|auto].
+Qed.
+Lemma ifok1_if conds els : ifok1b (SIf conds els) = true -> conds <> [].
+Proof.
+  change (ifok1b (SIf conds els)) with
+      (negb (match conds with [] => true | _ => false end) &&
+       (fix go (cs : list (bexp * list stmt)) : bool := match cs with [] => true | (_, b) :: r => ifok_local b && go r end) conds &&
+       match els with Some b => ifok_local b | None => true end).
+  intros H. destruct conds; [discriminate|discriminate].
+Qed.
+
+Lemma swf1_sub s : LabelSim.swf1b s = true -> forall b, In b (subblocks s) -> LabelSim.swfb b = true.
+Proof.
+  destruct s as [c|nm g tk|conds els|tag c body|tag body c|tag|tag|tag op ol cases]; cbn [subblocks]; try (intros _ b I; contradiction).
+  - intros H b I. destruct (LabelSim.swf_if _ _ H) as [A B']. apply in_app_or in I. destruct I as [I|I].
+    + apply in_map_iff in I. destruct I as ([e b'] & <- & I). rewrite Forall_forall in A. apply (A _ I).
+    + destruct els as [eb|]; [|destruct I]. destruct I as [<-|[]]. exact B'.
+  - intros H b [<-|[]]. apply (LabelSim.swf_while _ _ _ H).
+  - intros H b [<-|[]]. apply (LabelSim.swf_dowhile _ _ _ H).
+  - intros H b I. destruct (LabelSim.swf_switch _ _ _ _ H) as [_ A]. apply in_map_iff in I. destruct I as (c & <- & I). rewrite Forall_forall in A. apply (A _ I).
+Qed.
+Lemma swf1_switch_ndef tg op ol cases : LabelSim.swf1b (SSwitch tg op ol cases) = true -> (ndef cases <= 1)%nat.
+Proof.
+  intros H. destruct (LabelSim.swf_switch _ _ _ _ H) as [W _]. unfold LabelSim.wf_casesb in W. apply andb_prop in W. destruct W as [_ W].
+  apply Nat.leb_le in W. exact W.
+Qed.
+
+Definition okb (ss : list stmt) : bool := LabelSim.swfb ss && ifokb ss.
+Lemma okb_nil : okb [] = true. Proof. reflexivity. Qed.
+Lemma swfb_app a b : LabelSim.swfb (a ++ b) = LabelSim.swfb a && LabelSim.swfb b.
+Proof. induction a as [|x r IH]; [reflexivity|]. cbn. rewrite IH. now rewrite andb_assoc. Qed.
+Lemma ifokb_app a b : ifokb (a ++ b) = ifokb a && ifokb b.
+Proof. induction a as [|x r IH]; [reflexivity|]. cbn. rewrite IH. now rewrite andb_assoc. Qed.
+Lemma okb_app a b : okb (a ++ b) = true -> okb a = true /\ okb b = true.
+Proof.
+  unfold okb. rewrite swfb_app, ifokb_app. rewrite !andb_true_iff. tauto.
+Qed.
+Lemma okb_cons x r : okb (x :: r) = true -> LabelSim.swf1b x = true /\ ifok1b x = true /\ okb r = true.
+Proof. unfold okb. cbn. rewrite !andb_true_iff. tauto. Qed.
+Lemma ok_sub x b : LabelSim.swf1b x = true -> ifok1b x = true -> In b (subblocks x) -> okb b = true.
+Proof. intros A B' I. unfold okb. rewrite (swf1_sub x A b I), (ifok1_sub x B' b I). reflexivity. Qed.
+Lemma tags1_sub s : exists own, tags1 s = own ++ List.concat (map tags (subblocks s)) /\
+  match s with SWhile tg _ _ | SDoWhile tg _ _ | SSwitch tg _ _ _ => own = [tg] | _ => own = [] end.
+Proof.
+  destruct s as [c|nm g tk|conds els|tag c body|tag body c|tag|tag|tag op ol cases]; cbn [subblocks]; try (exists []; split; reflexivity).
+  - exists []. split; [|reflexivity]. rewrite tags1_if. cbn [app]. rewrite map_app, List.concat_app. unfold tags_conds. rewrite map_map. f_equal.
+    destruct els; cbn; [now rewrite app_nil_r|reflexivity].
+  - exists [tag]. split; [|reflexivity]. rewrite tags1_while. cbn. now rewrite app_nil_r.
+  - exists [tag]. split; [|reflexivity]. rewrite tags1_dowhile. cbn. now rewrite app_nil_r.
+  - exists [tag]. split; [|reflexivity]. rewrite tags1_switch. cbn. unfold tags_cases. rewrite map_map. reflexivity.
+Qed.
+
+(* ---------- where the statements of new chunks come from ---------- *)
+Definition from (allowed : list (list stmt)) (c : chunk) : Prop := cstmts c = [] \/ In (cstmts c) allowed.
+Lemma from_incl A1 A2 cs : incl A1 A2 -> Forall (from A1) cs -> Forall (from A2) cs.
+Proof. intros I H. eapply Forall_impl; [|exact H]. intros c [E|J]; [left; exact E|right; apply I; exact J]. Qed.
+Lemma prebranched_from A cs : Forall prebranched cs -> Forall (from A) cs.
+Proof. intros H. eapply Forall_impl; [|exact H]. intros c (E & _). left. exact E. Qed.
+Lemma sfb_from cur pre s rest' cn post ret c0 :
+  cstmts cur = pre ++ s :: rest' -> split_for_branch cur (List.length pre) cn = (post, ret, c0) -> Forall (from [rest']) post.
+Proof.
+  intros E H. destruct (sfb_spec _ _ _ _ _ _ _ _ E H) as [(-> & -> & -> & ->)|(N & -> & -> & ->)]; [constructor|].
+  constructor; [right; left; reflexivity|constructor].
+Qed.
+Lemma mk_body_from : forall bodies cn ret cs c', mk_body_chunks bodies cn ret = (cs, c') -> Forall (from bodies) cs.
+Proof.
+  induction bodies as [|b r IH]; intros cn ret cs c' H; cbn in H.
+  - inversion H; subst. constructor.
+  - destruct (mk_body_chunks r (cn + 1) ret) as [cs1 c1] eqn:E. inversion H; subst. constructor; [right; left; reflexivity|].
+    eapply from_incl; [|eapply IH; exact E]. intros x I. right. exact I.
+Qed.
+
+Lemma create_if_from e b more els cur pre rest' cn news br ret c' :
+  cstmts cur = pre ++ SIf ((e, b) :: more) els :: rest' ->
+  create_if ((e, b) :: more) els cur (List.length pre) cn = (news, br, ret, c') -> (0 <= cn)%Z ->
+  Forall (from (rest' :: subblocks (SIf ((e, b) :: more) els))) news.
+Proof.
+  intros E H Hc. rewrite create_if_unfold in H.
+  destruct (split_for_branch cur (List.length pre) cn) as [[post ret0] c0] eqn:ES.
+  destruct (mk_body_chunks (b :: map snd more) c0 ret0) as [bodychunks c1] eqn:EB.
+  destruct (sfb_news _ _ _ _ _ _ _ _ E ES) as [P1 _]. assert (C0 : (cn <= c0)%Z) by (destruct P1; assumption).
+  destruct (mk_body_chunks_spec _ _ _ _ _ EB) as (B1 & _).
+  set (EL := match els with Some eb => let c := (c1 + 1)%Z in ([mk c ret0 eb None], c, c) | None => ([], c1, ret0) end) in H.
+  assert (NE : (c1 <= snd (fst EL))%Z /\ Forall (from (match els with Some eb => [eb] | None => [] end)) (fst (fst EL))).
+  { subst EL. destruct els as [eb|]; cbn; (split; [lia|]); [constructor; [right; left; reflexivity|constructor]|constructor]. }
+  destruct EL as [[elsechunk c2] finalfail]. cbn [fst snd] in NE. destruct NE as [C2 NE].
+  destruct (stitch_elifs (rev (combine (map fst more) (tl (map cid bodychunks)))) c2 finalfail) as [[cs entryfail] c3] eqn:EST.
+  destruct (stitch_news _ _ _ _ _ _ EST ltac:(lia)) as [S1 S2]. assert (C3 : (c2 <= c3)%Z) by (destruct S1; assumption).
+  destruct (split_bexp e c3 (hd 0%Z (map cid bodychunks)) entryfail (-1)) as [[[cs1 x] entry] c4] eqn:EX.
+  destruct (split_bexp_ids _ _ _ _ _ _ _ _ _ EX ltac:(lia)) as (_ & _ & _ & X2 & _).
+  inversion H; subst. cbn [subblocks map snd].
+  apply Forall_app. split; [eapply from_incl; [|eapply sfb_from; eassumption]; intros y [<-|[]]; left; reflexivity|].
+  apply Forall_app. split; [eapply from_incl; [|eapply mk_body_from; exact EB]; intros y I; right; apply in_or_app; left; exact I|].
+  apply Forall_app. split; [eapply from_incl; [|exact NE]; intros y I; right; apply in_or_app; right; exact I|].
+  apply Forall_app. split; apply prebranched_from; assumption.
+Qed.
+
+Lemma create_while_from tg c body cur pre rest' cn news br ret c' :
+  cstmts cur = pre ++ SWhile tg c body :: rest' ->
+  create_while c body cur (List.length pre) cn = (news, br, ret, c') -> (0 <= cn)%Z ->
+  Forall (from (rest' :: subblocks (SWhile tg c body))) news.
+Proof.
+  intros E H Hc. unfold create_while in H.
+  destruct (split_for_branch cur (List.length pre) cn) as [[post ret0] c0] eqn:ES.
+  destruct (sfb_news _ _ _ _ _ _ _ _ E ES) as [P1 _]. assert (C0 : (cn <= c0)%Z) by (destruct P1; assumption).
+  assert (FP : Forall (from (rest' :: subblocks (SWhile tg c body))) post).
+  { eapply from_incl; [|eapply sfb_from; eassumption]. intros y [<-|[]]. left. reflexivity. }
+  destruct c as [e|].
+  - destruct (split_bexp e (c0 + 2) (c0 + 2) ret0 (-1)) as [[[cs x] entry] c1] eqn:EX.
+    destruct (split_bexp_ids _ _ _ _ _ _ _ _ _ EX ltac:(lia)) as (_ & _ & _ & X4 & _). inversion H; subst.
+    apply Forall_app. split; [exact FP|]. apply Forall_app. split; [apply prebranched_from; exact X4|].
+    constructor; [right; right; left; reflexivity|]. constructor; [left; reflexivity|constructor].
+  - inversion H; subst. apply Forall_app. split; [exact FP|].
+    constructor; [right; right; left; reflexivity|]. constructor; [left; reflexivity|constructor].
+Qed.
+
+Lemma create_dowhile_from tg body e cur pre rest' cn news br ret c' :
+  cstmts cur = pre ++ SDoWhile tg body e :: rest' ->
+  create_dowhile body e cur (List.length pre) cn = (news, br, ret, c') -> (0 <= cn)%Z ->
+  Forall (from (rest' :: subblocks (SDoWhile tg body e))) news.
+Proof.
+  intros E H Hc. unfold create_dowhile in H.
+  destruct (split_for_branch cur (List.length pre) cn) as [[post ret0] c0] eqn:ES.
+  destruct (sfb_news _ _ _ _ _ _ _ _ E ES) as [P1 _]. assert (C0 : (cn <= c0)%Z) by (destruct P1; assumption).
+  assert (FP : Forall (from (rest' :: subblocks (SDoWhile tg body e))) post).
+  { eapply from_incl; [|eapply sfb_from; eassumption]. intros y [<-|[]]. left. reflexivity. }
+  destruct (split_bexp e (c0 + 2) (c0 + 2) ret0 (-1)) as [[[cs x] entry] c1] eqn:EX.
+  destruct (split_bexp_ids _ _ _ _ _ _ _ _ _ EX ltac:(lia)) as (_ & _ & _ & X4 & _). inversion H; subst.
+  apply Forall_app. split; [exact FP|]. apply Forall_app. split; [apply prebranched_from; exact X4|].
+  constructor; [right; right; left; reflexivity|]. constructor; [left; reflexivity|constructor].
+Qed.
+
+Lemma sw_suf_from ret : forall f S st st' el,
+  sw_suf f S ret st = (st', el) -> (List.length S < f)%nat ->
+  exists extra, sw_new st' = sw_new st ++ extra /\ Forall (from (map (fun c : scase => sc_body c) S)) extra.
+Proof.
+  induction f as [|f IH]; intros S st st' el H L; [lia|].
+  destruct S as [|c r].
+  - cbn in H. inversion H; subst. exists []. rewrite app_nil_r. split; [reflexivity|constructor].
+  - cbn [sw_suf] in H. cbn [List.length] in L. destruct (sc_body c) as [|s0 b0] eqn:Bc.
+    + destruct (find_bodied r 0) as [[k cj]|] eqn:FB.
+      * destruct (find_bodied_some _ _ _ FB) as (E & r' & -> & HE & N & LEN).
+        assert (F2 : skipn (S k) (E ++ cj :: r') = r') by (rewrite <- LEN; apply skipn_app_here). rewrite F2 in H.
+        destruct (IH _ _ _ _ H) as (ex & A1 & A2); [rewrite app_length in L; cbn in L; lia|]. cbn [sw_new] in A1.
+        exists (mk (sw_counter st + 1) ret (sc_body cj) None :: ex). split; [rewrite A1, <- app_assoc; reflexivity|].
+        constructor.
+        -- right. cbn [cstmts mk]. apply in_map_iff. exists cj. split; [reflexivity|]. right. apply in_or_app. right. left. reflexivity.
+        -- eapply from_incl; [|exact A2]. intros y I. apply in_map_iff in I. destruct I as (z & <- & I). apply in_map_iff. exists z. split; [reflexivity|].
+           right. apply in_or_app. right. right. exact I.
+      * destruct (sw_def st) as [dd|].
+        -- assert (H' : ({| sw_new := sw_new st ++ [mk (sw_counter st + 1) ret [] None];
+                           sw_cases := sw_cases st ++ flat_map (case_entry (sw_counter st + 1)) (c :: r);
+                           sw_def := Some dd; sw_counter := (sw_counter st + 1)%Z |}, false) = (st', el)) by (destruct (sw_cases st); exact H).
+           inversion H'; subst. cbn. exists [mk (sw_counter st + 1) ret [] None]. split; [reflexivity|]. constructor; [left; reflexivity|constructor].
+        -- assert (H' : st' = st) by (destruct (sw_cases st); inversion H; reflexivity). subst st'.
+           exists []. rewrite app_nil_r. split; [reflexivity|constructor].
+    + destruct (IH _ _ _ _ H) as (ex & A1 & A2); [lia|]. cbn [sw_new] in A1.
+      exists (mk (sw_counter st + 1) ret (s0 :: b0) None :: ex). split; [rewrite A1, <- app_assoc; reflexivity|].
+      constructor.
+      * right. cbn [cstmts mk map]. left. exact Bc.
+      * eapply from_incl; [|exact A2]. intros y I. right. exact I.
+Qed.
+
+Lemma create_switch_from tg op ol cases cur pre rest' cn news br ret c' :
+  cstmts cur = pre ++ SSwitch tg op ol cases :: rest' ->
+  create_switch op ol cases cur (List.length pre) cn = (news, br, ret, c') -> (0 <= cn)%Z ->
+  Forall (from (rest' :: subblocks (SSwitch tg op ol cases))) news.
+Proof.
+  intros E H Hc. unfold create_switch in H.
+  destruct (split_for_branch cur (List.length pre) cn) as [[post ret0] c0] eqn:ES.
+  cbv zeta in H. rewrite sw_loop_suf in H. change (skipn 0 cases) with cases in H.
+  match type of H with context[sw_suf ?a ?b ?c ?d] => destruct (sw_suf a b c d) as [st el] eqn:SW end.
+  assert (LL : (List.length cases < S (List.length cases))%nat) by lia.
+  destruct (sw_suf_from _ _ _ _ _ _ SW LL) as (ex & A1 & A2). cbn in A1. inversion H; subst.
+  apply Forall_app. split; [eapply from_incl; [|eapply sfb_from; eassumption]; intros y [<-|[]]; left; reflexivity|].
+  constructor; [left; reflexivity|]. eapply from_incl; [|exact A2]. intros y I. right. exact I.
+Qed.
+
+(* ---------- the invariant of the worklist ---------- *)
+Definition ext (m M : tagmap) : Prop := forall k d, tm_get m k = Some d -> tm_get M k = Some d.
+Lemma ext_refl m : ext m m. Proof. intros k d H. exact H. Qed.
+Lemma ext_trans a b c : ext a b -> ext b c -> ext a c. Proof. intros H1 H2 k d H. apply H2, H1, H. Qed.
+Lemma tm_get_keys m k d : tm_get m k = Some d -> In k (map fst m).
+Proof. induction m as [|[k' v] r IH]; cbn; [discriminate|]. destruct (Nat.eqb_spec k k'); [intros _; left; auto|intros H; right; auto]. Qed.
+Lemma ext_cons m tg v : ~ In tg (map fst m) -> ext m ((tg, v) :: m).
+Proof. intros N k d H. cbn. destruct (Nat.eqb_spec k tg) as [->|_]; [exfalso; apply N; eapply tm_get_keys; exact H|exact H]. Qed.
+Lemma tm_get_head m tg v : tm_get ((tg, v) :: m) tg = Some v.
+Proof. cbn. now rewrite Nat.eqb_refl. Qed.
+
+Record Inv (w : wst) : Prop := {
+  inv_cnt : (0 <= counter w)%Z;
+  inv_nodup : NoDup (ids (remaining w ++ finals w));
+  inv_range : Forall (fun c => (0 <= cid c <= counter w)%Z) (remaining w ++ finals w);
+  inv_fresh : Forall fresh (remaining w);
+  inv_ok : Forall (fun c => okb (cstmts c) = true) (remaining w);
+  inv_tags : NoDup (tags_rem (remaining w) ++ map fst (brk w));
+  inv_keys : map fst (org w) = map fst (brk w) }.
+
+Definition own_tag (nt : option (nat * Z * Z)) : list nat := match nt with Some (tg, _, _) => [tg] | None => [] end.
+
+(* what one step produces (all control forms at once) *)
+Record step_facts (w : wst) (cur : chunk) (rest : list chunk) (fin : chunk) (news : list chunk) (c' : Z) (nt : option (nat * Z * Z)) : Prop := {
+  sf_cid : cid fin = cid cur;
+  sf_news : news_ok (counter w) c' news;
+  sf_ok : Forall (fun c => okb (cstmts c) = true) news;
+  sf_tags : Permutation (own_tag nt ++ tags_rem news) (tags (cstmts cur));
+  sf_obl : forall G B O, get_chunk G (cid cur) = Some fin -> Forall (obl G B O) news ->
+             ext (match nt with Some (tg, r, _) => (tg, r) :: brk w | None => brk w end) B ->
+             ext (match nt with Some (tg, _, d) => (tg, d) :: org w | None => org w end) O ->
+             obl G B O cur }.
+
+Lemma from_ok A news : Forall (fun b => okb b = true) A -> Forall (from A) news -> Forall (fun c => okb (cstmts c) = true) news.
+Proof.
+  intros HA H. eapply Forall_impl; [|exact H]. intros c [E|I]; [rewrite E; reflexivity|]. rewrite Forall_forall in HA. apply HA. exact I.
+Qed.
+
+Lemma tags_if_sub conds els : tags_conds conds ++ tags_opt els = List.concat (map tags (subblocks (SIf conds els))).
+Proof.
+  cbn [subblocks]. rewrite map_app, List.concat_app. unfold tags_conds. rewrite map_map. f_equal. destruct els; cbn; [now rewrite app_nil_r|reflexivity].
+Qed.
+
+Lemma wstep_facts w cur rest fin news c' nt :
+  Inv w -> remaining w = cur :: rest -> wstep w = SNext fin news c' nt -> step_facts w cur rest fin news c' nt.
+Proof.
+  intros I R H. unfold wstep in H. rewrite R in H.
+  assert (FR : fresh cur) by (pose proof (inv_fresh w I) as F; rewrite R in F; inversion F; assumption).
+  assert (OK : okb (cstmts cur) = true) by (pose proof (inv_ok w I) as F; rewrite R in F; inversion F; assumption).
+  pose proof (inv_cnt w I) as CN.
+  pose proof (scan_ok (cstmts cur) 0 (List.length (cstmts cur)) eq_refl) as SC.
+  destruct (scan (cstmts cur) 0 (List.length (cstmts cur))) as [i er]. inversion SC as [pre c e E F ER Q1|F Q1|pre s rest' E F NS Q1]; subst.
+  - (* a final end / return *)
+    cbn [Nat.add] in H. inversion H; subst. clear H.
+    assert (PL : plainchunk cur). { destruct FR as [(E0 & _)|P]; [rewrite E0 in E; destruct pre; discriminate|exact P]. }
+    destruct PL as [PE PB]. constructor.
+    + reflexivity.
+    + apply news_ok_nil.
+    + constructor.
+    + cbn. rewrite E, tags_app, (tags_simple pre F). cbn. constructor.
+    + intros G B O GC _ _ _. unfold obl. rewrite PB. eapply tr_block_intro; [exact GC|]. cbn [cstmts]. rewrite E. rewrite firstn_app_here.
+      eapply ts_endret; [exact F|exact ER|reflexivity|reflexivity|reflexivity].
+  - (* only simple statements *)
+    cbn [Nat.add] in H. rewrite Nat.eqb_refl in H. inversion H; subst. clear H. constructor.
+    + reflexivity.
+    + apply news_ok_nil.
+    + constructor.
+    + cbn. rewrite (tags_simple _ F). constructor.
+    + intros G B O GC _ _ _. unfold obl. destruct FR as [(E0 & _ & b & PB)|[PE PB]].
+      * rewrite PB. exact GC.
+      * rewrite PB. eapply tr_block_intro; [exact GC|]. apply ts_plain; [exact F|exact PB|reflexivity|exact PE].
+  - (* a control statement *)
+    cbn [Nat.add] in H.
+    assert (NE : Nat.eqb (List.length pre) (List.length (cstmts cur)) = false).
+    { apply Nat.eqb_neq. rewrite E, app_length. cbn. lia. }
+    rewrite NE in H. rewrite E in H at 1. rewrite nth_error_app_here in H.
+    assert (FN : firstn (List.length pre) (cstmts cur) = pre) by (rewrite E; apply firstn_app_here).
+    rewrite FN in H.
+    assert (PL : plainchunk cur). { destruct FR as [(E0 & _)|P]; [rewrite E0 in E; destruct pre; discriminate|exact P]. }
+    destruct PL as [PE PB].
+    rewrite E in OK. apply okb_app in OK. destruct OK as [_ OK]. apply okb_cons in OK. destruct OK as (W1 & W2 & OKR).
+    assert (SUB : Forall (fun b => okb b = true) (rest' :: subblocks s)).
+    { constructor; [exact OKR|]. rewrite Forall_forall. intros b Hb. eapply ok_sub; eassumption. }
+    assert (TG : tags (cstmts cur) = tags1 s ++ tags rest').
+    { rewrite E, tags_app, (tags_simple pre F). reflexivity. }
+    assert (OBL : forall G B O br ret, get_chunk G (cid cur) = Some {| cid := cid cur; cret := ret; cend := false; cstmts := pre; cbr := Some br |} ->
+                  tr_ctrl G B O s br ret -> tr_rest G B O rest' ret (cret cur) -> obl G B O cur).
+    { intros G B O br ret GC TC TR. unfold obl. rewrite PB. eapply tr_block_intro; [exact GC|]. cbn [cstmts]. rewrite E.
+      eapply ts_ctrl; [exact F|exact NS|reflexivity|exact TC|exact TR]. }
+    destruct s as [c|nm g tk|conds els|tag c body|tag body c|tag|tag|tag op ol cases]; try discriminate NS.
+    + (* if *)
+      destruct conds as [|[e b] more]; [apply ifok1_if in W2; congruence|].
+      destruct (create_if ((e, b) :: more) els cur (List.length pre) (counter w)) as [[[news0 br] ret] c0] eqn:CR. inversion H; subst. clear H.
+      destruct (create_if_news _ _ _ _ _ _ _ _ _ _ _ _ E CR CN) as [N1 N2]. constructor.
+      * reflexivity.
+      * exact N1.
+      * eapply from_ok; [exact SUB|]. eapply create_if_from; eassumption.
+      * cbn [own_tag app]. rewrite TG, tags1_if. rewrite <- app_assoc. exact N2.
+      * intros G B O GC FO _ _. destruct (create_if_tr G B O _ _ _ _ _ _ _ _ _ _ _ _ E CR CN FO) as [T1 T2]. eapply OBL; eassumption.
+    + (* while *)
+      destruct (create_while c body cur (List.length pre) (counter w)) as [[[news0 br] ret] c0] eqn:CR. inversion H; subst. clear H.
+      destruct (create_while_news _ _ _ _ _ _ _ _ _ _ _ E CR CN) as [N1 N2]. constructor.
+      * reflexivity.
+      * exact N1.
+      * eapply from_ok; [exact SUB|]. eapply create_while_from; eassumption.
+      * cbn [own_tag app]. rewrite TG, tags1_while. cbn [app]. apply perm_skip. exact N2.
+      * intros G B O GC FO EB EO. destruct (create_while_tr G B O _ _ _ _ _ _ _ _ _ _ _ E CR CN FO) as [T1 T2];
+          [apply EB; apply tm_get_head|apply EO; apply tm_get_head|]. eapply OBL; eassumption.
+    + (* do-while *)
+      destruct (create_dowhile body c cur (List.length pre) (counter w)) as [[[news0 br] ret] c0] eqn:CR. inversion H; subst. clear H.
+      destruct (create_dowhile_news _ _ _ _ _ _ _ _ _ _ _ E CR CN) as [N1 N2]. constructor.
+      * reflexivity.
+      * exact N1.
+      * eapply from_ok; [exact SUB|]. eapply create_dowhile_from; eassumption.
+      * cbn [own_tag app]. rewrite TG, tags1_dowhile. cbn [app]. apply perm_skip. exact N2.
+      * intros G B O GC FO EB EO. destruct (create_dowhile_tr G B O _ _ _ _ _ _ _ _ _ _ _ E CR CN FO) as [T1 T2];
+          [apply EB; apply tm_get_head|apply EO; apply tm_get_head|]. eapply OBL; eassumption.
+    + (* break *)
+      destruct (tm_get (brk w) tag) as [d|] eqn:TB; [|discriminate].
+      destruct (split_for_branch cur (List.length pre) (counter w)) as [[post ret] c0] eqn:ES. inversion H; subst. clear H.
+      destruct (sfb_news _ _ _ _ _ _ _ _ E ES) as [P1 P2]. constructor.
+      * reflexivity.
+      * exact P1.
+      * eapply from_ok; [exact SUB|]. eapply from_incl; [|eapply sfb_from; eassumption]. intros y [<-|[]]. left. reflexivity.
+      * cbn [own_tag app]. rewrite TG, P2. reflexivity.
+      * intros G B O GC FO EB _. eapply OBL; [exact GC| |eapply sfb_tr; eassumption]. apply tcl_break. apply EB. exact TB.
+    + (* continue *)
+      destruct (tm_get (org w) tag) as [d|] eqn:TB; [|discriminate].
+      destruct (split_for_branch cur (List.length pre) (counter w)) as [[post ret] c0] eqn:ES. inversion H; subst. clear H.
+      destruct (sfb_news _ _ _ _ _ _ _ _ E ES) as [P1 P2]. constructor.
+      * reflexivity.
+      * exact P1.
+      * eapply from_ok; [exact SUB|]. eapply from_incl; [|eapply sfb_from; eassumption]. intros y [<-|[]]. left. reflexivity.
+      * cbn [own_tag app]. rewrite TG, P2. reflexivity.
+      * intros G B O GC FO _ EO. eapply OBL; [exact GC| |eapply sfb_tr; eassumption]. apply tcl_continue. apply EO. exact TB.
+    + (* switch *)
+      destruct (create_switch op ol cases cur (List.length pre) (counter w)) as [[[news0 br] ret] c0] eqn:CR. inversion H; subst. clear H.
+      destruct (create_switch_news _ _ _ _ _ _ _ _ _ _ _ _ E CR CN) as [N1 N2]. constructor.
+      * reflexivity.
+      * exact N1.
+      * eapply from_ok; [exact SUB|]. eapply create_switch_from; eassumption.
+      * cbn [own_tag app]. rewrite TG, tags1_switch. cbn [app]. apply perm_skip. exact N2.
+      * intros G B O GC FO EB _. destruct (create_switch_tr G B O _ _ _ _ _ _ _ _ _ _ _ _ E CR CN (swf1_switch_ndef _ _ _ _ W1) FO) as [T1 T2];
+          [apply EB; apply tm_get_head|]. eapply OBL; eassumption.
+Qed.
+
+Lemma perm4 {A} (T O N R K : list A) : Permutation (O ++ N) T -> Permutation (T ++ R ++ K) ((R ++ N) ++ O ++ K).
+Proof.
+  intros P. etransitivity; [apply Permutation_app_tail; symmetry; exact P|].
+  rewrite <- !app_assoc. etransitivity; [apply Permutation_app_swap_app|].
+  etransitivity; [apply Permutation_app_head; apply Permutation_app_swap_app|]. apply Permutation_app_swap_app.
+Qed.
+
+Lemma get_chunk_set_final fs c i : get_chunk (set_final fs c) i = if Z.eqb (cid c) i then Some c else get_chunk fs i.
+Proof.
+  unfold set_final. cbn [get_chunk]. destruct (Z.eqb_spec (cid c) i) as [E|N]; [reflexivity|].
+  induction fs as [|x r IH]; [reflexivity|]. cbn [filter]. destruct (Z.eqb_spec (cid x) (cid c)) as [E2|N2]; cbn [negb].
+  - cbn [get_chunk]. destruct (Z.eqb_spec (cid x) i); [congruence|exact IH].
+  - cbn [get_chunk]. destruct (Z.eqb_spec (cid x) i); [reflexivity|exact IH].
+Qed.
+Lemma set_final_fresh fs c : ~ In (cid c) (ids fs) -> set_final fs c = c :: fs.
+Proof.
+  intros N. unfold set_final. f_equal. induction fs as [|x r IH]; [reflexivity|]. cbn. destruct (Z.eqb_spec (cid x) (cid c)) as [E|_]; cbn.
+  - exfalso. apply N. left. exact E.
+  - f_equal. apply IH. intros I. apply N. right. exact I.
+Qed.
+Lemma get_chunk_nodup' fs : NoDup (ids fs) -> forall c, In c fs -> get_chunk fs (cid c) = Some c.
+Proof.
+  induction fs as [|x r IH]; intros N c I; [destruct I|]. inversion N; subst. cbn. destruct I as [->|I]; [now rewrite Z.eqb_refl|].
+  destruct (Z.eqb_spec (cid x) (cid c)) as [E|_]; [|apply IH; assumption]. exfalso. match goal with K : ~ In _ _ |- _ => apply K end. rewrite E. apply in_map. exact I.
+Qed.
+
+Lemma wstep_inv w cur rest fin news c' nt :
+  Inv w -> remaining w = cur :: rest -> wstep w = SNext fin news c' nt -> Inv (wnext w fin news c' nt) /\
+  finals (wnext w fin news c' nt) = fin :: finals w /\ ~ In (cid cur) (ids (finals w)) /\
+  (forall tg, In tg (own_tag nt) -> ~ In tg (map fst (brk w))).
+Proof.
+  intros I R H. pose proof (wstep_facts _ _ _ _ _ _ _ I R H) as [SC (N1 & N2 & N3 & N4) SO ST _].
+  destruct I as [I1 I2 I3 I4 I5 I6 I7]. rewrite R in *. cbn [app ids map] in I2. inversion I2 as [|? ? NI ND]; subst.
+  assert (NF : ~ In (cid cur) (ids (finals w))). { intros J. apply NI. unfold ids. rewrite map_app. apply in_or_app. right. exact J. }
+  assert (SF : set_final (finals w) fin = fin :: finals w) by (apply set_final_fresh; rewrite SC; exact NF).
+  assert (TAGS : NoDup ((tags_rem (rest ++ news)) ++ own_tag nt ++ map fst (brk w))).
+  { eapply Permutation_NoDup; [|exact I6]. unfold tags_rem at 1. cbn [map List.concat]. fold (tags_rem rest). rewrite <- app_assoc.
+    rewrite tags_rem_app. apply perm4. exact ST. }
+  split; [|split; [exact SF|split; [exact NF|]]].
+  - unfold wnext. rewrite R. cbn [tl]. constructor; cbn [remaining finals counter brk org].
+    + lia.
+    + rewrite SF. unfold ids. rewrite map_app. cbn [map]. rewrite SC.
+      (* ids rest ++ ids news ++ cid cur :: ids finals *)
+      rewrite map_app. rewrite <- app_assoc.
+      apply nodup_app_intro.
+      * apply (nodup_app_l _ (map cid (finals w))). unfold ids in ND. rewrite map_app in ND. exact ND.
+      * apply nodup_app_intro; [exact N3| |].
+        -- constructor; [exact NF|]. apply (nodup_app_r (map cid rest)). unfold ids in ND. rewrite map_app in ND. exact ND.
+        -- intros x Hx [<-|Hy].
+           ++ pose proof (ids_in_In _ _ _ _ N2 Hx). inversion I3 as [|? ? Q _]; subst. lia.
+           ++ pose proof (ids_in_In _ _ _ _ N2 Hx). inversion I3 as [|? ? _ Q]; subst. rewrite Forall_forall in Q.
+              apply in_map_iff in Hy. destruct Hy as (y & <- & Hy). specialize (Q y ltac:(apply in_or_app; right; exact Hy)). cbn in Q. lia.
+      * intros x Hx Hy. apply in_app_or in Hy. destruct Hy as [Hy|[<-|Hy]].
+        -- pose proof (ids_in_In _ _ _ _ N2 Hy). inversion I3 as [|? ? _ Q]; subst. rewrite Forall_forall in Q.
+           apply in_map_iff in Hx. destruct Hx as (y & <- & Hx). specialize (Q y ltac:(apply in_or_app; left; exact Hx)). cbn in Q. lia.
+        -- apply NI. unfold ids. rewrite map_app. apply in_or_app. left. exact Hx.
+        -- unfold ids in ND. rewrite map_app in ND. apply (nodup_app_disj _ _ _ ND Hx Hy).
+    + rewrite SF. inversion I3 as [|? ? Q1 Q2]; subst. apply Forall_app in Q2. destruct Q2 as [Q2 Q3].
+      apply Forall_app. split; [apply Forall_app; split|constructor].
+      * eapply Forall_impl; [|exact Q2]. cbn. intros; lia.
+      * eapply Forall_impl; [|exact N2]. cbn. intros; lia.
+      * rewrite SC. lia.
+      * eapply Forall_impl; [|exact Q3]. cbn. intros; lia.
+    + inversion I4; subst. apply Forall_app. split; assumption.
+    + inversion I5; subst. apply Forall_app. split; assumption.
+    + destruct nt as [[[tg r] d]|]; cbn [own_tag map fst app] in *; exact TAGS.
+    + destruct nt as [[[tg r] d]|]; cbn [map fst]; congruence.
+  - intros tg Ht J. apply nodup_app_r in TAGS. exact (nodup_app_disj _ _ tg TAGS Ht J).
+Qed.
+
+(* ---------- the main induction ---------- *)
+Theorem work_establishes_obligations : forall f w w',
+  Inv w -> work f w = Ok w' ->
+  Inv w' /\ remaining w' = [] /\
+  (forall c, In c (finals w) -> get_chunk (finals w') (cid c) = Some c) /\
+  ext (brk w) (brk w') /\ ext (org w) (org w') /\
+  Forall (obl (finals w') (brk w') (org w')) (remaining w).
+Proof.
+  induction f as [|f IH]; intros w w' I H; [discriminate|]. rewrite work_S in H.
+  destruct (wstep w) as [|fin news c' nt| |] eqn:WS; try discriminate.
+  - (* worklist empty *)
+    inversion H; subst. unfold wstep in WS. destruct (remaining w') as [|cur rest] eqn:R.
+    + split; [exact I|]. split; [reflexivity|]. split.
+      * intros c Hc. apply get_chunk_nodup'; [|exact Hc]. pose proof (inv_nodup w' I) as N. rewrite R in N. exact N.
+      * split; [apply ext_refl|]. split; [apply ext_refl|constructor].
+    + exfalso. destruct (scan (cstmts cur) 0 (List.length (cstmts cur))) as [i [e|]]; [discriminate|].
+      destruct (Nat.eqb i (List.length (cstmts cur))); [discriminate|].
+      destruct (nth_error (cstmts cur) i) as [[c|n g tk|conds els|tag c body|tag body c|tag|tag|tag op ol cases]|]; try discriminate.
+      * destruct (create_if conds els cur i (counter w')) as [[[? ?] ?] ?]. discriminate.
+      * destruct (create_while c body cur i (counter w')) as [[[? ?] ?] ?]. discriminate.
+      * destruct (create_dowhile body c cur i (counter w')) as [[[? ?] ?] ?]. discriminate.
+      * destruct (tm_get (brk w') tag); [|discriminate]. destruct (split_for_branch cur i (counter w')) as [[? ?] ?]. discriminate.
+      * destruct (tm_get (org w') tag); [|discriminate]. destruct (split_for_branch cur i (counter w')) as [[? ?] ?]. discriminate.
+      * destruct (create_switch op ol cases cur i (counter w')) as [[[? ?] ?] ?]. discriminate.
+  - (* one step, then the rest *)
+    destruct (remaining w) as [|cur rest] eqn:R; [unfold wstep in WS; rewrite R in WS; discriminate|].
+    destruct (wstep_inv _ _ _ _ _ _ _ I R WS) as (I1 & SF & NF & NT).
+    pose proof (wstep_facts _ _ _ _ _ _ _ I R WS) as [SC _ _ _ OB].
+    destruct (IH _ _ I1 H) as (I' & RE & FP & EB & EO & FO).
+    split; [exact I'|]. split; [exact RE|].
+    assert (EB0 : ext (brk w) (brk (wnext w fin news c' nt))).
+    { unfold wnext. cbn [brk]. destruct nt as [[[tg r] d]|]; [|apply ext_refl]. apply ext_cons. apply NT. left. reflexivity. }
+    assert (EO0 : ext (org w) (org (wnext w fin news c' nt))).
+    { unfold wnext. cbn [org]. destruct nt as [[[tg r] d]|]; [|apply ext_refl]. apply ext_cons. rewrite (inv_keys w I). apply NT. left. reflexivity. }
+    split; [|split; [eapply ext_trans; eassumption|split; [eapply ext_trans; eassumption|]]].
+    + intros c Hc. apply FP. rewrite SF. right. exact Hc.
+    + unfold wnext in FO. cbn [remaining] in FO. rewrite R in FO. cbn [tl] in FO. apply Forall_app in FO. destruct FO as [FR FN].
+      constructor; [|exact FR].
+      apply OB; [|exact FN| |].
+      * rewrite <- SC. apply FP. rewrite SF. left. reflexivity.
+      * exact EB.
+      * exact EO.
+Qed.
+
+(* ---------- Lemma 1 ---------- *)
+Definition src_ok (body : list stmt) : Prop := okb body = true /\ NoDup (tags body).
+
+Local Opaque work_fuel work.
+Theorem worklist_establishes_tr_block body w :
+  emit_graph body = Ok w -> src_ok body ->
+  tr_block (finals w) (brk w) (org w) body 0 (-1) /\
+  (forall i c, get_chunk (finals w) i = Some c -> (0 <= i)%Z) /\
+  NoDup (ids (finals w)).
+Proof.
+  intros H [OK ND]. unfold emit_graph in H.
+  assert (I0 : Inv {| remaining := [mk 0 (-1) body None]; finals := []; counter := 0; brk := []; org := [] |}).
+  { constructor; cbn.
+    - lia.
+    - repeat constructor. intros [].
+    - repeat constructor; cbn; lia.
+    - constructor; [right; split; reflexivity|constructor].
+    - constructor; [exact OK|constructor].
+    - unfold tags_rem. cbn. rewrite !app_nil_r. exact ND.
+    - reflexivity. }
+  destruct (work_establishes_obligations _ _ _ I0 H) as (I' & RE & _ & _ & _ & FO). cbn [remaining] in FO.
+  inversion FO as [|? ? F0 _]; subst. split; [exact F0|]. split.
+  - intros i c GC. pose proof (inv_range w I') as RG. rewrite RE in RG. cbn [app] in RG. rewrite Forall_forall in RG.
+    assert (IN : In c (finals w)). { clear - GC. induction (finals w) as [|x r IHr]; cbn in GC; [discriminate|]. destruct (Z.eqb (cid x) i); [inversion GC; left; reflexivity|right; auto]. }
+    assert (E : cid c = i). { clear - GC. induction (finals w) as [|x r IHr]; cbn in GC; [discriminate|]. destruct (Z.eqb_spec (cid x) i); [inversion GC; subst; reflexivity|auto]. }
+    specialize (RG c IN). cbn in RG. lia.
+  - pose proof (inv_nodup w I') as N. rewrite RE in N. exact N.
+Qed.
+Print Assumptions worklist_establishes_tr_block.
